@@ -320,3 +320,27 @@ def tlc_strict_nc(mc_cfg, trace_path, wd, timeout=600):
     if not ok:
         return {"ok": False, "error": "\n".join(text.splitlines()[-30:]), "drifts": drifts, "stats": stats, "wall": dt}
     return {"ok": True, "drifts": drifts, "stats": stats, "wall": dt}
+
+
+def tlc_strict_dyn(trace_path, wd, timeout=900):
+    """Strict pass for netcode traces of any schedule: tokens / clients are read from the trace (TraceNetcodeDyn)."""
+    d = os.path.join(wd, "strict")
+    os.makedirs(d, exist_ok=True)
+    cfgf = os.path.join(d, "strictdyn-" + os.path.basename(trace_path) + ".cfg")
+    with open(cfgf, "w") as f:
+        f.write("SPECIFICATION Spec\nINVARIANT Done\nPOSTCONDITION Consumed\nCHECK_DEADLOCK FALSE\n")
+    meta = os.path.join(d, "metadyn-" + os.path.basename(trace_path))
+    out = os.path.join(d, "strictdyn-" + os.path.basename(trace_path) + ".out")
+    cmd = ["timeout", str(timeout), "tlc", "-workers", "1", "-metadir", meta, "-cleanup", "-noGenerateSpecTE", "-config", cfgf, "TraceNetcodeDyn.tla"]
+    t0 = time.time()
+    rc, _ = run(cmd, cwd=SPEC, env={"TRACE": trace_path, "JAVA_TOOL_OPTIONS": JAVA_TRACE}, out=out)
+    dt = time.time() - t0
+    text = open(out, errors="replace").read()
+    shutil.rmtree(meta, ignore_errors=True)
+    drifts = [tla_json(m.group(1)) for m in re.finditer(r'<<"DRIFT", "(.*)">>', text)]
+    m = re.search(r'<<"STRICT", "(.*)">>', text)
+    stats = tla_json(m.group(1)) if m else {}
+    ok = "Model checking completed. No error has been found." in text
+    if not ok:
+        return {"ok": False, "error": "\n".join(text.splitlines()[-30:]), "drifts": drifts, "stats": stats, "wall": dt}
+    return {"ok": True, "drifts": drifts, "stats": stats, "wall": dt}
